@@ -40,9 +40,9 @@ func invokeName(v ssa.Value) (iface, method string, ok bool) {
 	}
 	nt := engine.NamedOf(call.Call.Value.Type())
 	if nt == nil {
-		return "", call.Call.Method.Name(), true
+		return "", engine.MethodName(call.Call.Method), true
 	}
-	return nt.Obj().Name(), call.Call.Method.Name(), true
+	return nt.Obj().Name(), engine.MethodName(call.Call.Method), true
 }
 
 func c04(c *Ctx) {
@@ -192,8 +192,8 @@ func c04(c *Ctx) {
 				okAll = false
 				bad = o.V.String() + " (" + o.Kind + ") in " + parentName(c, o.V)
 			}
-			R.Check(okAll && len(origins) > 0, "R04.4", c.name(f)+"|"+cc.Method.Name()+"|uidValidity", P.Pos(cs.Pos()),
-				"UIDVALIDITY written here comes from the generator", "the UIDVALIDITY written by "+cc.Method.Name()+" can originate from "+bad+" instead of UIDValidityGenerator.Generate(): a re-created or re-validated mailbox could get a value that is not greater than every earlier one")
+			R.Check(okAll && len(origins) > 0, "R04.4", c.name(f)+"|"+engine.MethodName(cc.Method)+"|uidValidity", P.Pos(cs.Pos()),
+				"UIDVALIDITY written here comes from the generator", "the UIDVALIDITY written by "+engine.MethodName(cc.Method)+" can originate from "+bad+" instead of UIDValidityGenerator.Generate(): a re-created or re-validated mailbox could get a value that is not greater than every earlier one")
 		}
 	}
 	R.Min("R04.4", "UIDVALIDITY write sites", vs, 6)
